@@ -129,7 +129,7 @@ func jobs(tier string) []driver.Job {
 			}
 		}
 	}
-	return out
+	return append(out, seamJobs(th)...)
 }
 
 func refTag(d ocispec.Descriptor) string { return "sha256-" + d.Digest.Encoded() }
